@@ -2,6 +2,7 @@ import inspect
 from functools import wraps
 from typing import Any
 
+from pedantic.helper_methods import _Shown, _shown_args, _shown_kwargs
 from pedantic.constants import ReturnType, F
 
 
@@ -28,7 +29,7 @@ def trace_if_returns(return_value: ReturnType) -> F:
             result = func(*args, **kwargs)
 
             if result == return_value:
-                print(f'Function {func.__name__} returned value {result} for args: {args} and kwargs: {kwargs}')
+                print(f'Function {func.__name__} returned value {_Shown(result)} for args: {_shown_args(args)} and kwargs: {_shown_kwargs(kwargs)}')
 
             return result
 
@@ -37,7 +38,7 @@ def trace_if_returns(return_value: ReturnType) -> F:
             result = await func(*args, **kwargs)
 
             if result == return_value:
-                print(f'Function {func.__name__} returned value {result} for args: {args} and kwargs: {kwargs}')
+                print(f'Function {func.__name__} returned value {_Shown(result)} for args: {_shown_args(args)} and kwargs: {_shown_kwargs(kwargs)}')
 
             return result
 
